@@ -63,6 +63,8 @@ Definition upd_start (s : sync) h := Sync (chain s) (rq s) (valid_of s) (ready s
 Definition upd_hreq (s : sync) t := Sync (chain s) (rq s) (valid_of s) (ready s) (pending_sync s) (was_in_sync s) (notified s) (start_height s) (start_hash s) (version_received s) (handshake_complete s) (sent_sendheaders s) (addrs_requested s) t (connected s) (req_times s) (now s).
 Definition upd_valid (s : sync) v := Sync (chain s) (rq s) v (ready s) (pending_sync s) (was_in_sync s) (notified s) (start_height s) (start_hash s) (version_received s) (handshake_complete s) (sent_sendheaders s) (addrs_requested s) (headers_requested s) (connected s) (req_times s) (now s).
 Definition upd_times (s : sync) t := Sync (chain s) (rq s) (valid_of s) (ready s) (pending_sync s) (was_in_sync s) (notified s) (start_height s) (start_hash s) (version_received s) (handshake_complete s) (sent_sendheaders s) (addrs_requested s) (headers_requested s) (connected s) t (now s).
+(* State.ClearInSync: in sync, was in sync and pending sync are all cleared (fix 814efe5) *)
+Definition clear_in_sync (s : sync) : sync := upd_pending (upd_was (upd_ready s false) false) false.
 
 Section WithLimits.
 Variable MAXR LIM : Z.
@@ -113,11 +115,11 @@ Fixpoint headers_loop (s : sync) (last_hash : Z) (hs : list hdr) (acc : list Z) 
         | Some rh =>
             if rh =? height s then
               (* reorg on latest block: requests cleared, this header is not added *)
-              let s1 := upd_rq (upd_was (upd_ready s false) false) (clear_all (rq s)) in
+              let s1 := upd_rq (clear_in_sync s) (clear_all (rq s)) in
               headers_loop s1 last_hash hs' acc modified
             else
               (* reorg in processed blocks: revert to the fork point *)
-              let s1 := upd_rq (upd_was (upd_ready s false) false) (clear_all (rq s)) in
+              let s1 := upd_rq (clear_in_sync s) (clear_all (rq s)) in
               let s2 := take_chain s1 rh in
               let s3 := upd_rq s2 (set_last_hash (rq s2) (tip s2)) in
               let '(s4, request) := check_start_height s3 h in
@@ -125,7 +127,7 @@ Fixpoint headers_loop (s : sync) (last_hash : Z) (hs : list hdr) (acc : list Z) 
                                  then let '(s5, send) := request_block s4 prev id in (s5, if send then acc ++ [id] else acc)
                                  else (s4, acc) in
               headers_loop s5 id hs' acc1 true
-        | None => (upd_was (upd_ready s false) false, None, modified)
+        | None => (clear_in_sync s, None, modified)
             (* unknown header: `return nil, nil` (accumulated getdata dropped); the node is behind the
                peer, ClearInSync makes the periodic check poll with a locator again (fix a4501ac) *)
         end
@@ -393,7 +395,9 @@ Fixpoint run_from (w : world) (ops : list op) : list obs :=
 End Step.
 
 Definition table_fn (tbl : list (Z * Z)) (x : Z) : Z :=
-  match find (fun e => fst e =? x) tbl with Some e => snd e | None => -77 end.
+  match find (fun e => fst e =? x) tbl with Some e => snd e | None => x - 1 end.
+(* (an id outside the table has the parent id - 1, so that the parent function of a table whose parents are
+   smaller than their children is acyclic: the rank hypothesis of the theorems is satisfiable with rk = id) *)
 
 (* the harness starts from a fresh node: load on empty storage, connection just made *)
 Definition run (MAXR LIM HT HDT BT DELTA : Z) (parents : list (Z * Z)) (start : Z) (ops : list op) : list obs :=
